@@ -22,6 +22,8 @@ from ..engines.linform import canon
 
 def run(model, rep, tier):
     rep.explanation = __doc__.strip()
+    from ._common import caches_for
+    caches_for(model, rep, 'C29')
     rep.not_decided = 'that each supercell geometrically contains exactly the named defects; correctness of equivalencemap'
     rep.rule('representative-pairing', 'tag key and placed object come from the same zip element and the same index')
     rep.rule('placement', 'defects placed through __setitem__ with index invsuper . u / size of one supercell')
